@@ -89,7 +89,7 @@ func Plans() map[string]*Plan {
 		p.MinOps, p.MaxOps = 4, 22
 		p.HandlesPerTask = 2
 		p.SmallBlocks = true
-		p.ManyNames = 24
+		p.ManyNames = 64
 		p.RefsPerTxn = [2]int{0, 6}
 		p.LogsPerTxn = [2]int{0, 4}
 		p.AutoP = 0.3
@@ -212,6 +212,7 @@ func Plans() map[string]*Plan {
 		p.SharedOids = 5
 		p.SmallBlocks = true
 		p.ManyNames = 64
+		p.HugeNames = 260
 		p.Logs = false
 		p.RefsPerTxn = [2]int{1, 8}
 		p.PopularP = 0.3
